@@ -305,7 +305,7 @@ class C17(Check):
         "multi_file_export_declined_midway", "no_warnings_overwrite",
         "no_warnings_via_config", "confirmed_replaced", "declined_kept",
         "disk_fault_fired", "same_process_second_save",
-        "colliding_outputs_in_one_command",
+        "colliding_outputs_in_one_command", "target_is_symlink",
     )
 
     def setup_worker(self):
@@ -466,7 +466,8 @@ class C17(Check):
         for c in cands:
             p = 0.45 if exists is None else (1.0 if exists else 0.0)
             if rng.random() < p:
-                pre[c] = rng.choice(["random", "random", "keep"])
+                pre[c] = rng.choice(["random", "random", "keep", "random",
+                                     "keep", "symlink"])
         if exists and not pre and cands:
             pre[cands[0]] = "random"
         op["pre"] = pre
@@ -682,9 +683,24 @@ class C17(Check):
                         os.makedirs(os.path.dirname(rel), exist_ok=True)
                     if how == "keep" and os.path.exists(rel):
                         continue
+                    blob = bytes(prng.getrandbits(8)
+                                 for _ in range(prng.randint(1, 64)))
+                    if how == "symlink":
+                        # the target is a link to an existing file elsewhere
+                        os.makedirs("store", exist_ok=True)
+                        real = os.path.join(
+                            "store", f"{oi}_" + os.path.basename(rel))
+                        with open(real, "wb") as f:
+                            f.write(blob)
+                        if os.path.lexists(rel):
+                            os.unlink(rel)
+                        os.symlink(os.path.join(sb.root, real), rel)
+                        res.stats["probe.target_is_symlink"] += 1
+                        continue
+                    if os.path.islink(rel):
+                        os.unlink(rel)
                     with open(rel, "wb") as f:
-                        f.write(bytes(prng.getrandbits(8)
-                                      for _ in range(prng.randint(1, 64))))
+                        f.write(blob)
                 before = sb.snapshot()
                 S["plot_split"] = bool(op.get("plot_split"))
                 S["plot_backend"] = "Agg"
@@ -775,10 +791,19 @@ class C17(Check):
             res.aux.setdefault("unexpected", []).append(
                 f"{op['kind']}: {type(exc).__name__}: {str(exc)[:120]}")
 
+        # paths that are the same file (a symlink and the file it points to)
+        by_ino = {}
+        for path, (_b, ino) in before.items():
+            by_ino.setdefault(ino, set()).add(path)
+
+        def group(P):
+            return by_ino.get(before[P][1], {P}) if P in before else {P}
+
         def mut_idx(P):
+            names = group(P)
             out = []
             for i, e in enumerate(events):
-                if e[0] in sandbox.MUTATING and P in e[1:]:
+                if e[0] in sandbox.MUTATING and any(n in e[1:] for n in names):
                     out.append(i)
             return out
 
@@ -793,15 +818,18 @@ class C17(Check):
             muts = mut_idx(P)
             new = after.get(P)
             changed = new is None or new[0] != old_bytes
-            ys = [i for i, path, a in prompts if a == "y" and path == P]
+            ys = [i for i, path, a in prompts
+                  if a == "y" and path in group(P)]
             # prompts that are, or may be, about P (no announcing record: the
             # question text mentions overwriting or the file's name)
-            asked = [i for i, path, a in prompts if path == P or (
+            asked = [i for i, path, a in prompts if path in group(P) or (
                 path is None and (
                     "overwrite" in str(events[i][1]).lower()
                     or os.path.basename(P) in str(events[i][1])))]
             is_target = P in exact or any(fnmatch.fnmatch(P, g)
                                           for g in globs)
+            if P.startswith("store/") and len(group(P)) > 1:
+                continue  # judged through the link that names it
             if P.startswith("in/") or P.startswith("in2/"):
                 if muts or changed:
                     return self._fail(op, "input-file-modified", path=P)
